@@ -326,10 +326,13 @@ Definition hex_escape (c : chr) : option (nat * string) :=
    passes over those characters with `skip`, so the `S k` branch counts a skipped "\n".  (The first skipped
    character is the escape letter itself - `n`, `x`, `u`, ... - never a line break.)  Before 914ba97 the
    skipped characters never changed `line` (finding escape_swallows_newline, fixed).
-   STILL not counted (scanner.rs today): the character consumed right after `\` or `$` when it makes the
-   token an error ("Invalid escape sequence." / "Expected '{' in string interpolation.") - if that
-   character is a raw line break, every later token of the compilation is one line short
-   (ScannerLineExact.v: line_exact_refuted_escape / line_exact_refuted_dollar). *)
+   The character consumed right after `\` or `$` when it makes the token an error ("Invalid escape
+   sequence." / "Expected '{' in string interpolation."): since /repo e81033c a raw line break there is
+   counted too - AFTER the Error token was built, so that token keeps the line of its `\` / `$` and
+   the returned state carries line + 1 (these two exits are the only places where the token's line is not
+   the line of the state returned with it).  Before e81033c it was not counted (finding
+   literal_error_swallows_newline, fixed).  With that, every line break the scanner consumes is counted:
+   ScannerLineExact.token_line_exact. *)
 Fixpoint string_loop (cs : list chr) (skip : nat) (buf : list byte) (err : option string)
          (pos : nat) (line : N) (parens : list N) : token * sstate :=
   match cs with
@@ -348,7 +351,10 @@ Fixpoint string_loop (cs : list chr) (skip : nat) (buf : list byte) (err : optio
         | [] => (error_token line "Expected '{' in string interpolation.", mkS [] (pos + 1) line parens)
         | c2 :: r2 =>
           let st := mkS r2 (pos + 1 + length c2) line parens in
-          if negb (chr_is c2 "{") then (error_token line "Expected '{' in string interpolation.", st)
+          if negb (chr_is c2 "{") then
+            (* the token is built first, THEN `if is_newline { self.line += 1; }` (since /repo e81033c) *)
+            (error_token line "Expected '{' in string interpolation.",
+             mkS r2 (pos + 1 + length c2) (if chr_is c2 "010" then line + 1 else line) parens)
           else if Nat.leb INTERPOLATION_DEPTH_MAX (length parens)
                then (error_token line "Max interpolation depth exceeded.", st)
           else (mkToken TInterpolation line (rev buf),
@@ -368,7 +374,9 @@ Fixpoint string_loop (cs : list chr) (skip : nat) (buf : list byte) (err : optio
               | (None, k) => string_loop r (1 + k) buf (Some msg) (pos + 1) line parens
               end
             | None =>
-              (error_token line "Invalid escape sequence.", mkS r2 (pos + 1 + length c2) line parens)
+              (* the `"\n"` arm: token first, then `self.line += 1` (since /repo e81033c); `_` arm: no change *)
+              (error_token line "Invalid escape sequence.",
+               mkS r2 (pos + 1 + length c2) (if chr_is c2 "010" then line + 1 else line) parens)
             end
           end
         end
